@@ -38,9 +38,11 @@ def _is_spec_source(src, filename):
     if isinstance(filename, str) and os.path.isabs(filename):
         return False                      # a module / traceback source line, not the spec
     body = src.strip()
-    for n in STATE['needles']:
-        n = n.strip()
-        if not n:
+    for raw in STATE['needles']:
+        n = raw.strip()
+        if not n:                         # a blank spec text: compare unstripped
+            if src == raw or (src.endswith(raw) and _ASSIGN.fullmatch(src[:-len(raw)].strip())):
+                return True
             continue
         if body == n or body == '(' + n + ')':
             return True
